@@ -640,11 +640,12 @@ def fails_spec(ctx, exe, mexe, c, method, k, conn=False):
         return None
     tag = "G" if conn else "F"
     r = run_impl(ctx, exe, [c], [["%s %s %d" % (tag, method, k)]], timeout=20 if c["N"] <= 200 else 120)[0]
+    cc = ", check_connectivity=true" if conn else ""
     if r["crashed"]:
-        return "find_neighbors(%s, k=%d) aborts: %s" % (MNAME[method], k, str(r["sanitizer"])[:400])
+        return "find_neighbors(%s, k=%d%s) aborts: %s" % (MNAME[method], k, cc, str(r["sanitizer"])[:400])
     p = parse_case_output(r["lines"])
     if p["bad"] or p["exc"]:
-        return "find_neighbors(%s, k=%d): %s" % (MNAME[method], k, (p["bad"] + p["exc"])[0])
+        return "find_neighbors(%s, k=%d%s): %s" % (MNAME[method], k, cc, (p["bad"] + p["exc"])[0])
     rows = p[tag].get((method, k))
     if rows is None:
         return "find_neighbors(%s, k=%d) printed no result" % (MNAME[method], k)
